@@ -18,13 +18,11 @@ MonNext ==
     /\ l <= Len(TraceLog) /\ l' = l + 1
     /\ tar' = Ev.tar /\ prio' = Ev.prio /\ allow' = Ev.allow /\ eff' = EffOf(Ev.tar)
     /\ opt' = Ev.opt
-    /\ res' = [err |-> Ev.err # "", out |-> Ev.order, missed |-> Ev.missed]
+    /\ res' = [err |-> Ev.err # "", why |-> Ev.err, out |-> Ev.order, missed |-> Ev.missed]
     /\ lay' = Ev.lay
     /\ phase' = IF Ev.err # "" THEN "sorted" ELSE "laid"
 
 MonSpec == MonInit /\ [][MonNext]_mvars
 
-\* an error other than "a listed path was not found" is not something C14 speaks about: the formulas that
-\* read res.err treat it as an abort; MonOnlyNotFoundAborts keeps such events visible
-MonOnlyNotFoundAborts == (l > 1 /\ Done) => TraceLog[l - 1].err \in {"", "notfound"}
+\* events: err = "" | "notfound" | "loop" (D6: any abort is an abort for MissingAbortsOrIsReported)
 =============================================================================
